@@ -2,6 +2,7 @@
 pub mod cli;
 pub mod cmdgen;
 pub mod dump;
+pub mod model;
 pub mod par;
 pub mod polex;
 pub mod report;
